@@ -31,7 +31,7 @@ Definition iout_eqb (a b : iout) : bool :=
   match a, b with
   | IAdded, IAdded | IErr, IErr => true
   | ICount x, ICount y => Nat.eqb x y
-  | IBatch x, IBatch y => list_eqb N.eqb x y
+  | IBatch x, IBatch y | IBatchFail x, IBatchFail y => list_eqb N.eqb x y
   | _, _ => false
   end.
 
